@@ -100,4 +100,115 @@ theorem roundMag_self (x : Bits) (hx : PosFin x) :
     roundMag (toFrac (mant x) (expo x)).1 (toFrac (mant x) (expo x)).2 = x :=
   roundMag_exact x hx _ _ (toFrac_snd_pos _ _) rfl
 
+/-! ### `mul x one = x` -/
+
+theorem toNat_decomp_full (x : Bits) :
+    x.toNat = (if signBit x then 2 ^ 63 else 0) + magOf x := by
+  have hs := signBit_false_iff x
+  have hlt := x.toNat_lt
+  unfold magOf
+  rw [expField_eq, fracField_eq]
+  cases h : signBit x
+  · have := hs.mp h; simp only [Bool.false_eq_true, if_false]; omega
+  · have : ¬ x.toNat < 2 ^ 63 := fun h' => by rw [hs.mpr h'] at h; cases h
+    simp only [if_true]; omega
+
+theorem or_negZero_toNat (m : Bits) (hm : m.toNat < 2 ^ 63) :
+    (m ||| negZero).toNat = 2 ^ 63 + m.toNat := by
+  rw [UInt64.toNat_or]
+  have : negZero.toNat = 2 ^ 63 * 1 := by decide
+  rw [this, Nat.or_comm, ← Nat.two_pow_add_eq_or_of_lt hm 1]; omega
+
+/-- **mul_one** — multiplication by 1.0 is the identity on every non-NaN pattern
+(±Inf, ±0, subnormal and normal numbers). -/
+theorem mul_one (x : Bits) (hx : isNaN x = false) : mul x one = x := by
+  have hdec := toNat_decomp_full x
+  have hF := fracField_lt x
+  have hE := expField_lt x
+  have h1 : isNaN one = false := by decide
+  have h2 : isInf one = false := by decide
+  have h3 : isZero one = false := by decide
+  have h4 : signBit one = false := by decide
+  have h5 : mant one = 2 ^ 52 := by decide
+  have h6 : expo one = -52 := by decide
+  unfold mul
+  simp only [hx, h1, h2, h3, h4, Bool.or_false, Bool.false_eq_true, if_false, Bool.bne_false]
+  unfold magOf at hdec
+  by_cases hinf : isInf x = true
+  · have hz : isZero x = false := by
+      unfold isInf at hinf; unfold isZero
+      simp only [Bool.and_eq_true, beq_iff_eq] at hinf
+      simp [hinf.1]
+    simp only [hinf, hz, if_true, Bool.false_eq_true, if_false]
+    unfold isInf at hinf
+    simp only [Bool.and_eq_true, beq_iff_eq] at hinf
+    rw [← UInt64.toNat_inj, hdec, hinf.1, hinf.2]
+    unfold inf
+    cases signBit x
+    · simp only [Bool.false_eq_true, if_false]; decide
+    · simp only [if_true]; decide
+  · have hinf' : isInf x = false := by simpa using hinf
+    simp only [hinf', Bool.false_eq_true, if_false]
+    by_cases hz : isZero x = true
+    · simp only [hz, if_true]
+      unfold isZero at hz
+      simp only [Bool.and_eq_true, beq_iff_eq] at hz
+      rw [← UInt64.toNat_inj, hdec, hz.1, hz.2]
+      unfold zero
+      cases signBit x
+      · simp only [Bool.false_eq_true, if_false]; decide
+      · simp only [if_true]; decide
+    · have hz' : isZero x = false := by simpa using hz
+      simp only [hz', Bool.false_eq_true, if_false]
+      -- finite non-zero
+      have hfin : expField x < 2047 := by
+        have hne : expField x ≠ 2047 := by
+          intro he
+          unfold isNaN at hx; unfold isInf at hinf'
+          rw [he] at hx hinf'
+          simp only [beq_self_eq_true, Bool.true_and] at hx hinf'
+          simp at hx hinf'
+          exact hinf' hx
+        omega
+      have hpos : 0 < magOf x := by
+        unfold magOf
+        unfold isZero at hz'
+        by_cases he : expField x = 0
+        · have : fracField x ≠ 0 := by
+            intro hf; simp [he, hf] at hz'
+          omega
+        · have := Nat.pos_of_ne_zero he
+          omega
+      have hval : (((toFrac (mant x * mant one) (expo x + expo one)).1 : Nat) : ℚ) /
+          ((toFrac (mant x * mant one) (expo x + expo one)).2 : ℚ) = val x := by
+        rw [toFrac_ratio, h5, h6]
+        unfold val
+        have two_ne : (2 : ℚ) ≠ 0 := by norm_num
+        have e : expo x + -52 = expo x - 52 := by omega
+        rw [e, zpow_sub₀ two_ne]
+        push_cast
+        ring
+      have hrm := roundMag_exact_fields x hpos hfin _ _ (toFrac_snd_pos _ _) hval
+      show roundRat (signBit x) (toFrac (mant x * mant one) (expo x + expo one)).1
+        (toFrac (mant x * mant one) (expo x + expo one)).2 = x
+      unfold roundRat
+      simp only [hrm]
+      have hlt : magOf x < 2 ^ 63 := by unfold magOf; omega
+      have hm : (UInt64.ofNat (magOf x)).toNat = magOf x := by
+        rw [UInt64.toNat_ofNat']; exact Nat.mod_eq_of_lt (by omega)
+      rw [← UInt64.toNat_inj, hdec]
+      cases signBit x
+      · simp only [Bool.false_eq_true, if_false]; rw [hm]; unfold magOf; omega
+      · simp only [if_true]
+        rw [or_negZero_toNat _ (by rw [hm]; exact hlt), hm]; unfold magOf; omega
+
+/-- non-trivial instances: 0.1 rounds to itself; −3.0 · 1.0 = −3.0; a subnormal; −Inf -/
+example : roundMag 1 10 = 0x3FB999999999999A := by decide +kernel
+example : roundMag (toFrac (mant 0x3FB999999999999A) (expo 0x3FB999999999999A)).1
+    (toFrac (mant 0x3FB999999999999A) (expo 0x3FB999999999999A)).2 = 0x3FB999999999999A :=
+  roundMag_self _ (by decide)
+example : mul 0xC008000000000000 one = 0xC008000000000000 := mul_one _ (by decide)
+example : mul 0x0000000000000003 one = 0x0000000000000003 := mul_one _ (by decide)
+example : mul negInf one = negInf := mul_one _ (by decide)
+
 end F64
